@@ -158,43 +158,81 @@ def gen_envs(argspecs, seed=0, limit=2600):
             break
 
 
+NUMEQ = [False]     # compare float lanes as numbers (+0 == -0): set by rules whose statement says "same number"
+
+
+def _same_mod_nan(a, e, width, eb):
+    """lane-wise equality where two NaN lanes count as equal"""
+    import fpeval
+    M = (1 << eb) - 1
+    for i in range(width // eb):
+        x, y = (a >> (i * eb)) & M, (e >> (i * eb)) & M
+        if x != y and not (fpeval.isnan(x, eb) and fpeval.isnan(y, eb)):
+            if NUMEQ[0] and (x << 1) & M == 0 and (y << 1) & M == 0:
+                continue
+            return False
+    return True
+
+
 def find_witness(actual, expected, argspecs, names=None, lane_bits=None, seed=0, env_ok=None, watch=None):
-    """a point where the two closed forms differ (or where the actual one is undefined), or None"""
+    """a point where the two closed forms differ (or where the actual one is undefined), or None.
+    Closed forms with float arithmetic are evaluated under all four rounding modes."""
+    fp = T.has_fp(actual) or T.has_fp(expected)
+    modes = ("RN", "RD", "RU", "RZ") if fp else ("RN",)
+    for w_ in _find_witness(actual, expected, argspecs, names, lane_bits, seed, env_ok, watch, modes, fp):
+        return w_
+    return None
+
+
+def _find_witness(actual, expected, argspecs, names, lane_bits, seed, env_ok, watch, modes, fp):
     budget = max(24, min(2600, 600000 // max(1, T.size(actual) + T.size(expected))))
     for ne, args in enumerate(gen_envs(argspecs, seed)):
         if ne >= budget:
             break
-        env = {"args": args, "mem": lambda a: ((a * 131) ^ (a >> 7) ^ 0x5B) & 0xFF}
-        if watch:
-            env = dict(env, watch=None)
         if env_ok is not None:
             ok = env_ok(args, names)
             if ok is None:
-                return None
+                return
             if not ok:
                 continue
+        for rm in modes:
+            r = _one_env(actual, expected, args, names, lane_bits, watch, rm, fp)
+            if r is not None:
+                yield r
+                return
         if ne and (ne & 15) == 0 and T._budget[1] is not None:
             import time
             if time.time() > T._budget[1]:
-                return None
+                return
+
+
+def _one_env(actual, expected, args, names, lane_bits, watch, rm, fp):
+    if True:
+        env = {"args": args, "mem": lambda a: ((a * 131) ^ (a >> 7) ^ 0x5B) & 0xFF, "rm": rm}
+        if watch:
+            env = dict(env, watch=None)
         try:
             e = T.ev(expected, env)
         except T.Uneval:
-            continue
+            return None
         try:
             if watch:
                 env["watch"] = watch
             a = T.ev(actual, env)
         except T.Poison as p:
             w = {"args": {}, "got": "undefined: %s" % p, "expected": hex(e)}
+            if fp:
+                w["rounding_mode"] = rm
             for i, v in enumerate(args):
                 nm = names[i] if names and i < len(names) else "arg%d" % i
                 w["args"][nm] = hex(v)
             return w
         except T.Uneval:
-            continue
-        if a != e:
+            return None
+        if a != e and not (fp and lane_bits in (32, 64) and _same_mod_nan(a, e, actual[1], lane_bits)):
             w = {"args": {}, "got": hex(a), "expected": hex(e)}
+            if fp:
+                w["rounding_mode"] = rm
             for i, v in enumerate(args):
                 nm = names[i] if names and i < len(names) else "arg%d" % i
                 w["args"][nm] = hex(v)
@@ -217,7 +255,7 @@ def interpreted(t):
           "call:llvm.bitreverse", "call:llvm.abs", "call:llvm.umin", "call:llvm.umax",
           "call:llvm.smin", "call:llvm.smax", "call:llvm.uadd.sat", "call:llvm.usub.sat",
           "call:llvm.sadd.sat", "call:llvm.ssub.sat", "spec:bit_floor", "spec:bit_ceil",
-          "sdiv", "udiv", "srem", "urem"}
+          "sdiv", "udiv", "srem", "urem"} | T.FP_OPS
     seen = set()
     stack = [t]
     while stack:
@@ -225,7 +263,7 @@ def interpreted(t):
         if not isinstance(x, tuple) or id(x) in seen:
             continue
         seen.add(id(x))
-        if x[0] not in OK:
+        if x[0] not in OK and not x[0].startswith("fr:"):
             return False
         for y in x[2:]:
             if isinstance(y, tuple):
@@ -256,6 +294,108 @@ def lane_deps_ok(t, lane_bits, argbits):
 
 class _NoMem:
     accesses = ()
+
+
+def _rebase(t, shift, vec_args, memo):
+    """rename lane-i argument bits to lane 0 (subtract shift from the bit offsets of vector arguments)"""
+    if not isinstance(t, tuple):
+        return t
+    r = memo.get(id(t))
+    if r is not None:
+        return r
+    if t[0] == "arg":
+        r = T.arg(t[2], t[3] - shift[t[2]], t[1]) if t[2] in vec_args and t[3] >= shift[t[2]] else t
+    elif t[0] in ("const", "undef"):
+        r = t
+    else:
+        r = T.mk(t[0], t[1], *[_rebase(x, shift, vec_args, memo) for x in t[2:]])
+    memo[id(t)] = r
+    return r
+
+
+def exhaustive_lanes(actual, expected, argspecs, names, lane_bits, env_ok=None, watch=None, max_bits=16, max_points=1 << 18):
+    """Truth-table equivalence of two closed forms: when an output lane depends on at most max_bits input
+    bits, both forms are evaluated on every assignment of those bits (within the documented domain).
+    Complete for that lane; lanes that are the same term up to lane renaming are enumerated once.
+    returns ('HOLDS', points) | ('REFUTED', witness) | (None, reason)"""
+    if lane_bits is None or actual[1] % lane_bits:
+        lane_bits = actual[1]
+    n = actual[1] // lane_bits
+    vec_args = {k for k, (b, lb, d) in enumerate(argspecs) if lb and b // lb == n and n > 1}
+    done = {}
+    points = 0
+    for i in range(n):
+        ta = T.slice_(actual, i * lane_bits, lane_bits)
+        te = T.slice_(expected, i * lane_bits, lane_bits)
+        if ta is te:
+            continue
+        shift = {k: i * argspecs[k][1] for k in vec_args}
+        key = (id(_rebase(ta, shift, vec_args, {})), id(_rebase(te, shift, vec_args, {}))) if i else (id(ta), id(te))
+        if key in done:
+            continue
+        bitsused = {}
+        for t in (ta, te):
+            for lf in T.leaves(t, ("arg", "mem")):
+                if lf[0] == "mem":
+                    return None, "memory leaf"
+                for b in range(lf[3], lf[3] + lf[1]):
+                    bitsused.setdefault(lf[2], set()).add(b)
+        order = [(k, b) for k in sorted(bitsused) for b in sorted(bitsused[k])]
+        if len(order) > max_bits:
+            return None, "lane %d depends on %d input bits" % (i, len(order))
+        if points + (1 << len(order)) > max_points:
+            return None, "enumeration budget"
+        nargs = len(argspecs)
+        import time as _time
+        for v in range(1 << len(order)):
+            if (v & 255) == 0 and T._budget[1] is not None and _time.time() > T._budget[1]:
+                return None, "time budget"
+            args = [0] * nargs
+            for j, (k, b) in enumerate(order):
+                if (v >> j) & 1:
+                    args[k] |= 1 << b
+            ok = True
+            for k, (bts, lb, dom) in enumerate(argspecs):
+                if dom is not None and k in bitsused and dom(args[k]) != args[k]:
+                    ok = False
+                    break
+            if not ok:
+                continue
+            if env_ok is not None:
+                # make every lane valid by replicating the enumerated lane where needed
+                full = list(args)
+                for k in vec_args:
+                    lb = argspecs[k][1]
+                    lanev = (args[k] >> (i * lb)) & ((1 << lb) - 1)
+                    full[k] = sum(lanev << (l * lb) for l in range(n))
+                r_ok = env_ok(full, names)
+                if r_ok is None:
+                    return None, "domain predicate not applicable"
+                if not r_ok:
+                    continue
+                args = full
+            env = {"args": args}
+            if watch:
+                env["watch"] = watch
+            try:
+                e = T.ev(te, dict(env, watch=None) if watch else env)
+            except T.Uneval:
+                return None, "expected form not evaluable"
+            try:
+                a = T.ev(ta, env)
+            except T.Poison as p:
+                w = {"args": {names[k] if k < len(names) else "arg%d" % k: hex(x) for k, x in enumerate(args)},
+                     "got": "undefined: %s" % p, "expected": hex(e), "lane": i}
+                return "REFUTED", w
+            except T.Uneval as ex:
+                return None, "not evaluable: %s" % ex
+            points += 1
+            if a != e:
+                w = {"args": {names[k] if k < len(names) else "arg%d" % k: hex(x) for k, x in enumerate(args)},
+                     "got": hex(a), "expected": hex(e), "lane": i}
+                return "REFUTED", w
+        done[key] = True
+    return "HOLDS", points
 
 
 def _watch(summary):
@@ -327,5 +467,16 @@ def _compare(actual, expected, summary, argspecs, names, lane_bits, pure=True, e
         w = find_witness(actual, expected, argspecs, names, lane_bits, env_ok=env_ok, watch=_watch(summary))
         if w is not None:
             return REFUTED, T.show(actual, 5, names), w
-        return UNDECIDED, "forms differ, no separating point found: " + T.show(actual, 4, names), None
+        try:
+            ex, info = exhaustive_lanes(actual, expected, argspecs, names, lane_bits, env_ok=env_ok, watch=_watch(summary))
+        except T.TooBig:
+            ex, info = None, "budget"
+        if ex == "HOLDS":
+            if pure and summary.accesses:
+                return UNDECIDED, "value matches but the function touches memory", None
+            return HOLDS, "truth-table equivalence of the closed forms over %d input assignments (every lane depends on <= 16 input bits); %s" % (
+                info, T.show(T.slice_(actual, 0, min(actual[1], lane_bits or actual[1])), 2, names)), None
+        if ex == "REFUTED":
+            return REFUTED, T.show(actual, 5, names), info
+        return UNDECIDED, "forms differ, no separating point found (%s): " % info + T.show(actual, 4, names), None
     return UNDECIDED, T.show(actual, 4, names), None
